@@ -28,7 +28,7 @@ PROPS["C12"] = {
 RULES["C06"] = ("cases: (a,x,x2) with a = k/2, k from shapes the tests use / [1,40] / [41,1000] / [1001,10000]; x from a mixture: a(1+d) and 1+d "
                 "with d log-uniform +-[1e-16,0.3] (both switch-over lines, both sides), a+z sqrt(a) z in [-8,12], a-u sqrt(a) and a+u sqrt(a) (where the series / continued fraction need the most iterations), uniform [0,20a+200], [0,3a], "
                 "0, negative, the prefactor-underflow cut-off (a ln x - x - lgamma a = -709.78, found by bisection) +- drawn width, tiny x; "
-                "x2 >= x is a 1-4 ulp neighbour, a relative 1e-12..0.3 neighbour or a far point (monotonicity). "
+                "in a third of the cases 1-3 earlier calls with shapes a + j*2^p (p in 6..17, j in 1..3; possibly beyond 5000) precede the call (history); x2 >= x is a 1-4 ulp neighbour, a relative 1e-12..0.3 neighbour or a far point (monotonicity). "
                 "non-trivial: reference Q strictly inside (1e-300,1). distinct: hash of (2a,x,x2).")
 PROPS["C06"] = {
     "level": "exploration",
@@ -53,19 +53,19 @@ PROPS["C01"] = {
                     "math.Erfc/Log trusted"],
 }
 
-RULES["C02"] = (_SEQ + "tests: runs total (n from 1), runs distribution (n >= 100, lengths at the cut-off boundaries n = 5*2^(k+2)+k-3 +-2, run lengths pinned to k-1,k,k+1), "
+RULES["C02"] = (_SEQ + "tests: runs total (n from 1), runs distribution (n >= 100, lengths at the cut-off boundaries n = 5*2^(k+2)+k-3 +-2 (sweep: every k up to 18, i.e. n up to 5.2*10^6; thorough: k up to 22 and n = 10^7, 10^8), run lengths pinned to k-1,k,k+1), "
                 "longest run of ones / zeros (n >= 128, lengths around 6272 and 750000, blockwise sequences whose per-block longest run is forced to each class edge). "
                 "oracle: run-decomposition reference; longest-run class tables re-derived by exact big-integer DP and rounded to printed precision; |dP|,|dQ| <= 1e-8. "
                 "non-trivial: >= 3 runs and reference P inside (1e-12,1-1e-12) (runs total: >= 3 runs). distinct: hash of the case JSON.")
 PROPS["C02"] = {
     "level": "exploration",
     "quick": shards(8, "TestC02", 5000, floor=1500) + [S("TestC02Sweep", floor=20)],
-    "thorough": shards(15, "TestC02", 8000, floor=3000, timeout=3000) + [S("TestC02Sweep", floor=20)],
+    "thorough": shards(15, "TestC02", 8000, floor=3000, timeout=3000) + [S("TestC02Sweep", floor=20), S("TestC02Sweep", mode="huge", floor=4, mem_gb=60, timeout=3400)],
     "assumptions": ["reference statistics validated on the annex known answers on every run", "math.Erfc trusted"],
 }
 
 RULES["C03"] = (_SEQ + "tests: binary derivative k in {3,7,15} (plus period-2^j tiles whose derivative collapses), autocorrelation d in {1,2,8,16,32} (plus tiles of period d / 2d), "
-                "cumulative sums forward/backward (plus walks forced to a maximum excursion Z log-uniform in [1,n], Z in {1,2,3,5,10,n/40,n/4,n/3,n/2,n-1,n} in the sweep). "
+                "cumulative sums forward/backward (plus walks forced to a maximum excursion Z log-uniform in [1,n], Z in {1,2,3,5,10,n/40,n/4,n/3,n/2,n-1,n} in the sweep, and walks of 4*10^6 and 1.3*10^7 bits confined to |S| <= 1,2,3). "
                 "oracle: naive references (fresh slice per derivative pass, explicit pair counting, walk maximum + the standard's normal-CDF series); |dP|,|dQ| <= 1e-8. "
                 "non-trivial: reference P inside (1e-12,1-1e-12). distinct: hash of the case JSON.")
 PROPS["C03"] = {
@@ -179,7 +179,7 @@ PROPS["C09"] = {
 }
 
 RULES["C10"] = (_STREAM + "each stream is delivered once in full-buffer reads to the sequential workflow (reference) and once through a chunking reader to the workflow under test (sequential or parallel; SingleDetect too): "
-                "plans {all 1-byte reads, fixed prime size 2..8191, random sizes in [1, sampleBytes+7], sizes sampleBytes+-1/-7/+13 that straddle every sample boundary, full reads with one short read per cycle}. "
+                "plans {all 1-byte reads, fixed prime size 2..8191, random sizes in [1, sampleBytes+7], sizes sampleBytes+-1/-7/+13 that straddle every sample boundary, full reads with one short read per cycle}; a quarter of the workflow cases instead use a standard *bytes.Reader or *os.File (which also implement io.ReaderAt / io.Seeker) positioned behind a header of zero bytes. "
                 "oracle: equal verdict and, when false, the same named item; SingleDetect consumes exactly numByte. non-trivial: the full-read verdict is true (stale or zero bytes would flip it) or the named item is not item 1. "
                 "distinct: hash of the case JSON.")
 PROPS["C10"] = {
@@ -264,7 +264,7 @@ PROPS["C18"] = {
 }
 
 RULES["C13"] = ("a directory tree in a scratch dir: 1..40 sample files (2*10^4 scale; 1..3 at 10^6; 1..4 short files for the 10^8 worker), suffix .bin/.dat, random safe base names (duplicates across sub-directories allowed), nesting depth 0..3, "
-                "0..5 non-sample files of other suffixes, sometimes a directory whose name ends in .bin/.dat; contents uniform/biased/markov/periodic/constant/sparse/run-list; -n in 1..64, GOMAXPROCS in {1,2,16}. The built rddetector binary is run "
+                "0..5 non-sample files of other suffixes, sometimes a directory whose name ends in .bin/.dat; contents uniform/biased/markov/periodic/constant/sparse/run-list; -n in 1..64, GOMAXPROCS in {1,2,16}; in a third of the runs the -o path already holds an older report (1 byte .. 400 KB). The built rddetector binary is run "
                 "end to end at the 2*10^4 and 10^6 scales; worker_1E8 is driven directly through a go test -overlay shim on 100000..200000-bit files; main's scale switch for 10^8 is observed on sparse 12.5 MB files (header line read, process killed). "
                 "Some shards pin 'one worker, >= 2-3 files' (a worker then handles consecutive files) and some run a -race build of the binary / shim (a race report is a violation). oracle: exit status 0 within the budget (a stuck child gets SIGQUIT: all goroutines blocked = violation, merely slow = inconclusive); report = the scale's header + exactly one row per sample file (multiset on base names, rows of equal name matched by values); "
                 "every cell equals, to 6 decimals (+-1 unit), the library's P/Q value for the test, parameter and component that the header column names. non-trivial: >= 2 files and a worker count different from the file count. distinct: hash of the case JSON.")
@@ -290,7 +290,7 @@ PROPS["C13"] = {
 }
 
 RULES["C20"] = ("runs of the built rdgen binary from a fresh scratch working directory: s in 1..40 (300 thorough), n in {20000, 10^6, 8*k for k in 1..10000} (two 10^8 runs in thorough), output directory absent (documented default target/data) / relative / reused (a quarter of the cases first run rdgen into the same directory with another s and n: the files must end up with exactly the new size) / "
-                "./x/b/c not existing / absolute / pre-existing with foreign files / path with '..'; NumCPU (= writer goroutines) 1, 3 or 16 via taskset, GOMAXPROCS 0/1/2. oracle: exit 0; a census of the whole scratch directory finds exactly random0.bin..random(s-1).bin "
+                "./x/b/c not existing / absolute / pre-existing with foreign files / path with '..'; a third of the directory names contain spaces, '%', dots, dashes, '+=,@#~' or non-ASCII characters; NumCPU (= writer goroutines) 1, 3 or 16 via taskset, GOMAXPROCS 0/1/2. oracle: exit 0; a census of the whole scratch directory finds exactly random0.bin..random(s-1).bin "
                 "in the requested directory (foreign files untouched, nothing anywhere else), each n/8 bytes, pairwise different and not all-zero when n >= 128; for n in {20000,10^6,10^8} the detector's counting pass (toBeTestFileNum through the shim) "
                 "reports (s, n). non-trivial: -o given and s > 1. distinct: hash of the case JSON.")
 PROPS["C20"] = {
